@@ -240,7 +240,7 @@ open AdaptaVerif.Lemmas.VpscFinal AdaptaVerif.Lemmas.VpscSolve in
     the first sentence of the property for the model. -/
 theorem eq_post (st st' : St) (pos : Array Rat) (ret : Bool) (h : Hist st)
     (hs : st.satisfy = (st', .ok pos ret) ∨ st.solve = (st', .ok pos ret))
-    (hsc : ∀ i : Nat, (st'.vars[i]!).scale ≠ 0)
+    (hsc : ∀ i : Nat, i < st'.vars.size → (st'.vars[i]!).scale ≠ 0)
     (j : Nat) (hj : j < st'.cons.size) (heq : (st'.cons[j]!).eq = true)
     (hun : (st'.cons[j]!).unsat = false) :
     (st'.cons[j]!).active = true ∧ slackAt st'.vars pos (st'.cons[j]!) = 0 := by
@@ -300,6 +300,34 @@ def exampleEq : St :=
 
 #guard (match exampleEq.solve with
         | (st', .ok _ _) => st'.cons.all (fun c => !c.unsat) && st'.invOk | _ => false)
+
+open AdaptaVerif.Lemmas.VpscFinal in
+/-- non-vacuity of `eq_post`: all its hypotheses hold together on a concrete history — `IncSolver(vs, cs)`
+    with scales 1, 2, 1 and the equality `x0 + 1 == x1`, then `solve()`: it returns normally, every variable
+    in range has a non-zero scale (the in-range form; the unbounded `∀ i, (vars[i]!).scale ≠ 0` is false on
+    every state because `vars[i]!` is `default` with scale 0 beyond the end), constraint 0 is an unflagged
+    equality.  (Kernel evaluation of the Rat model: `decide +kernel`.) -/
+example : ∃ (st st' : St) (pos : Array Rat) (ret : Bool) (j : Nat), Hist st ∧
+    (st.satisfy = (st', .ok pos ret) ∨ st.solve = (st', .ok pos ret)) ∧
+    (∀ i : Nat, i < st'.vars.size → (st'.vars[i]!).scale ≠ 0) ∧
+    j < st'.cons.size ∧ (st'.cons[j]!).eq = true ∧ (st'.cons[j]!).unsat = false ∧
+    ¬ (∀ i : Nat, (st'.vars[i]!).scale ≠ 0) := by
+  have hok : (match exampleEq.solve with | (_, .ok _ _) => true | _ => false) = true := by
+    decide +kernel
+  have hsc : ∀ i : Nat, i < exampleEq.solve.1.vars.size → (exampleEq.solve.1.vars[i]!).scale ≠ 0 := by
+    decide +kernel
+  have hj : 0 < exampleEq.solve.1.cons.size ∧ (exampleEq.solve.1.cons[0]!).eq = true ∧
+      (exampleEq.solve.1.cons[0]!).unsat = false := by decide +kernel
+  have hbad : ¬ (exampleEq.solve.1.vars[3]!).scale ≠ 0 := by decide +kernel
+  have hH : Hist exampleEq := Hist.init _ _ (by
+    intro c hc
+    simp only [List.mem_toArray, List.mem_cons, List.not_mem_nil, or_false] at hc
+    rcases hc with rfl | rfl <;> simp [mkCon])
+  rcases h : exampleEq.solve with ⟨st', o⟩
+  rw [h] at hok hsc hj hbad
+  cases o with
+  | ok pos ret => exact ⟨exampleEq, st', pos, ret, 0, hH, Or.inr h, hsc, hj.1, hj.2.1, hj.2.2, fun hall => hbad (hall 3)⟩
+  | _ => simp at hok
 #guard (match ((exampleEq.solve.1.addConstraint (mkCon 2 0 1 false)).setDesired 0 7).satisfy with
         | (st', .ok _ _) => st'.cons.any (·.unsat) && st'.invOk | _ => false)
 
